@@ -589,10 +589,13 @@ pub fn limit_cases(t: Tier) -> Vec<LimitCase> {
         LimitCase { fast_start: false, audio: false, below: 4, small_tail: false },
         // mdat box fits (8 + payload = 2^32 - 101) but ftyp + moov in front push the last chunk offsets beyond 2^32
         LimitCase { fast_start: true, audio: true, below: 109, small_tail: true },
+        // moov at the end with audio (one chunk per sample): 8 + payload = 2^32 - 1 fits the mdat box exactly, the last chunk
+        // offsets do not fit 32 bits (found fix e4adbc3: a u32 cursor)
+        LimitCase { fast_start: false, audio: true, below: 9, small_tail: true },
     ];
     if t == Tier::Thorough {
         v.push(LimitCase { fast_start: true, audio: true, below: 109, small_tail: false });
-        v.push(LimitCase { fast_start: false, audio: true, below: 9, small_tail: true }); // 8 + payload = 2^32 - 1: fits exactly
+        v.push(LimitCase { fast_start: false, audio: true, below: 9, small_tail: false }); // 8 + payload = 2^32 - 1: fits exactly
         v.push(LimitCase { fast_start: false, audio: true, below: 8, small_tail: false }); // one byte too many
         v.push(LimitCase { fast_start: true, audio: false, below: 4000, small_tail: true }); // single chunk: everything fits
         v.push(LimitCase { fast_start: true, audio: true, below: 1 << 20, small_tail: true }); // comfortably below: must succeed
@@ -752,7 +755,7 @@ pub fn def() -> PropertyDef {
                 name: "four_gib_limit",
                 cases: limit_cases,
                 eval: eval_limit,
-                note: "fixed list: 64 VP9 frames (+ Opus) whose payload ends 4 .. 2^20 bytes below 2^32 (2 cases quick, 6 thorough; ~9 GiB of memory each, one at a time): either finish returns an error, or the mdat size and every chunk offset are exact",
+                note: "fixed list: 64 VP9 frames (+ Opus) whose payload ends 4 .. 2^20 bytes below 2^32 (3 cases quick, 8 thorough; ~9 GiB of memory each, one at a time): either finish returns an error, or the mdat size and every chunk offset are exact",
             }),
             Box::new(PSub { name: "fields_around_2^16", quick: 6000, thorough: 150000, strat: fields_strategy, eval: eval_fields }),
             Box::new(PSub { name: "fragmented_boundaries", quick: 12000, thorough: 300000, strat: fragnum_strategy, eval: eval_fragnum }),
